@@ -22,6 +22,8 @@ def mdids(md):
     for m in md:
         if isinstance(m, dict) and '_e' in m:
             out.append((m['_e'], m['_j']))
+        elif isinstance(m, dict) and getattr(m.get('ref'), '_elem', None) is not None:
+            out.append((m['ref']._elem, 0))
         else:
             out.append(('?', type(m).__name__))
     return tuple(out)
@@ -302,6 +304,8 @@ def build_graph(ctx, source_kwargs):
         if op == 'source':
             s = Stream(**source_kwargs)
             entry = True
+        elif op == 'external':        # a stream built by the family harness (Kafka source, Dask segment)
+            s = ctx.external[nid]
         elif op == 'map':
             spec = tuple(n['fn'])
             s = ups[0].map(ctx.sync_fn(nid, lambda x, _s=spec: fns.f1(_s, x)))
